@@ -121,8 +121,9 @@ def check_pages(run, m, fn_def, tag):
 
 
 def group_tail(name, tag):
+    import re
     rest = name[len(tag) + 1:] if name.startswith(tag) else name
-    return ":".join(p for p in rest.split(":") if not p.startswith("path"))
+    return ":".join(re.sub(r"@L\d+$", "", p) for p in rest.split(":") if not p.startswith("path"))
 
 
 def check_init(run, m, cls, tag, input_tok):
@@ -234,3 +235,40 @@ def run(run: Run):
                     check_iter(run, m2, body, tag + ":iter", is_async)
             run.assume(*m.assumptions)
     run.table("pagers:some-class-checked", seen_classes > 0, group="pagers:cover")
+
+
+def wiring(run: Run):
+    """The client method wraps a paged response in the pager, passing rpc/request/response/retry/timeout/metadata through."""
+    env = J.make_env()
+    for tname, out_attr, what in ((J.SERVICE_DIR + "_client_macros.j2", "client_output", "sync"),
+                                  (J.SERVICE_DIR + "async_client.py.j2", "client_output_async", "async")):
+        tree = J.parse(env, tname)
+        body = J.find_branch(tree, "method.paged_result_field")
+        run.table(f"pager.wiring:{what}:branch-present", body is not None, group="pager.wiring:branch-present")
+        if body is None:
+            continue
+        vs = J.render_nodes(env, tree, body, ["method", "api", "service", "name", "snippet_index"])
+        run.fragments.append(frag_info(tname, "elif method.paged_result_field", vs))
+        for vi, var in enumerate(vs):
+            tag = f"pager.wiring:{what}:v{vi}"
+            if var.error:
+                run.table(f"{tag}:render-safe", False, detail=var.error, group="pager.wiring:render-safe")
+                continue
+            try:
+                tree_py, _ = parse_variant(var.text)
+            except SyntaxError as e:
+                run.table(f"{tag}:parses", False, detail=str(e), group="pager.wiring:parses")
+                continue
+            stmts = [s for s in tree_py.body if isinstance(s, ast.Assign)]
+            ok = len(stmts) == 1 and isinstance(stmts[0].value, ast.Call) and ast.unparse(stmts[0].targets[0]) == "response"
+            run.table(f"{tag}:single-assignment-to-response", ok, group="pager.wiring:shape")
+            if not ok:
+                continue
+            call = stmts[0].value
+            kws = {k.arg: ast.unparse(k.value) for k in call.keywords}
+            run.table(f"{tag}:arguments-passed-through", kws == {"method": "rpc", "request": "request", "response": "response", "retry": "retry",
+                                                                 "timeout": "timeout", "metadata": "metadata"} and not call.args,
+                      detail=str(kws), group="pager.wiring:arguments-passed-through")
+            fpath = var.holes.get(ast.unparse(call.func))
+            run.table(f"{tag}:constructs-the-method's-pager", fpath == f"method.{out_attr}.ident", detail=str(fpath),
+                      group="pager.wiring:constructs-pager")
